@@ -803,15 +803,25 @@ theorem random_crop_spec (g : Geom) (c0 c1 c2 s0 s1 s2 : Int)
 /-- **random_spatial_crop with a requested shape of other than three entries** (the source zips the request with the spatial
 shape and does not insist on three entries, unlike the sibling to-shape methods): entries beyond the third are never looked
 at; a request of two entries crops the first two axes — for every value the generator may return — and leaves the third axis
-as it is (shape `(c0, c1, n2)`, index map `(s0 + j0, s1 + j1, j2)`). -/
+as it is (shape `(c0, c1, n2)`, index map `(s0 + j0, s1 + j1, j2)`); one entry crops the first axis only; an empty request
+crops nothing. -/
 theorem random_crop_other_lengths (g : Geom) :
     (∀ c0 c1 c2 rest draws, randomCropG AxMap.size g (c0 :: c1 :: c2 :: rest) draws = randomCropG AxMap.size g [c0, c1, c2] draws) ∧
     (∀ c0 c1 s0 s1, (1 ≤ c0 ∧ c0 ≤ g.n0 ∧ 0 ≤ s0 ∧ s0 ≤ g.n0 - c0) → (1 ≤ c1 ∧ c1 ≤ g.n1 ∧ 0 ≤ s1 ∧ s1 ≤ g.n1 - c1) →
       ∃ r, randomCropG AxMap.size g [c0, c1] [s0, s1] = .ok r ∧ r.1.n0 = c0 ∧ r.1.n1 = c1 ∧ r.1.n2 = g.n2 ∧
-        ∀ j, r.2 j = ⟨s0 + j.i0, s1 + j.i1, j.i2⟩) := by
-  refine ⟨fun c0 c1 c2 rest draws => randomCropG_ignores_extra AxMap.size g c0 c1 c2 rest draws, fun c0 c1 s0 s1 h0 h1 => ?_⟩
-  refine ⟨_, randomCropG_two AxMap.size g c0 c1 s0 s1 h0 h1, rfl, rfl, rfl, fun j => ?_⟩
-  simp [remapSrc]
+        ∀ j, r.2 j = ⟨s0 + j.i0, s1 + j.i1, j.i2⟩) ∧
+    (∀ c0 s0, (1 ≤ c0 ∧ c0 ≤ g.n0 ∧ 0 ≤ s0 ∧ s0 ≤ g.n0 - c0) →
+      ∃ r, randomCropG AxMap.size g [c0] [s0] = .ok r ∧ r.1.n0 = c0 ∧ r.1.n1 = g.n1 ∧ r.1.n2 = g.n2 ∧
+        ∀ j, r.2 j = ⟨s0 + j.i0, j.i1, j.i2⟩) ∧
+    (∃ r, randomCropG AxMap.size g [] [] = .ok r ∧ r.1.n0 = g.n0 ∧ r.1.n1 = g.n1 ∧ r.1.n2 = g.n2 ∧ ∀ j, r.2 j = j) := by
+  refine ⟨fun c0 c1 c2 rest draws => randomCropG_ignores_extra AxMap.size g c0 c1 c2 rest draws, fun c0 c1 s0 s1 h0 h1 => ?_,
+    fun c0 s0 h0 => ?_, ?_⟩
+  · refine ⟨_, randomCropG_two AxMap.size g c0 c1 s0 s1 h0 h1, rfl, rfl, rfl, fun j => ?_⟩
+    simp [remapSrc]
+  · refine ⟨_, randomCropG_one AxMap.size g c0 s0 h0, rfl, rfl, rfl, fun j => ?_⟩
+    simp [remapSrc]
+  · refine ⟨_, randomCropG_none AxMap.size g, rfl, rfl, rfl, fun j => ?_⟩
+    cases j; simp [remapSrc]
 
 /-- a requested size beyond the axis is refused (ValueError) whatever would be drawn -/
 theorem random_crop_refuses_larger (c n s : Int) (h : n < c) : randomCropAxis c n s = .error .value :=
